@@ -659,6 +659,7 @@ class Runner:
         return nxt if nxt is not None else len(ops)
 
     def push_level(self, k, o, H_here, pre, i):
+        S_typed_complex = bool(numpy.iscomplexobj(self.m.basis_transformations[-1]))
         S = numpy.array(self.m.basis_transformations[-1], dtype=complex)
         check(S.shape == (o.dim, o.dim), "transformation-shape", "S has shape %r" % (S.shape,))
         Si = numpy.linalg.inv(S)
@@ -680,7 +681,7 @@ class Runner:
         Tp, Tpi = self.TTi(self.depth, o.dim) if all(l["dim"] == o.dim for l in self.levels) else (numpy.eye(o.dim), numpy.eye(o.dim))
         T = Tp @ S
         self.levels.append({"S": S, "T": T, "Ti": numpy.linalg.inv(T), "dim": o.dim, "opk": k, "pre": pre,
-                            "complexS": bool(numpy.max(numpy.abs(S.imag)) > 1e-14)})
+                            "complexS": bool(numpy.max(numpy.abs(S.imag)) > 1e-14), "typedComplexS": S_typed_complex})
         if self.levels[-1]["complexS"] and not self.cplx:
             self.ctx.probe("complex_eigenvectors_of_real_valued_operator")
         self.entered += 1
@@ -1156,9 +1157,13 @@ class Runner:
         if ao.cls in ("SelfAdjoint", "RDM") and bo.cls == "Operator":
             return
         ra, rb = self.raw(ao, "data"), self.raw(bo, "data")
-        if ra is None or rb is None or (numpy.iscomplexobj(rb) and not numpy.iscomplexobj(ra)) or self.cplx \
-                or any(l.get("complexS") for l in self.levels):
-            return      # numpy refuses to add complex numbers into a real array in place (not a basis matter)
+        if ra is None or rb is None or self.cplx:
+            return
+        if not numpy.iscomplexobj(ra) and (numpy.iscomplexobj(rb) or any(l.get("typedComplexS") for l in self.levels)):
+            # numpy refuses to add a complex-typed array into a real-typed one in place; a transformation matrix that is
+            # complex-typed (even with zero imaginary part) makes every lazily transformed operand complex-typed.
+            # This is array typing, not a basis matter.
+            return
         self.touch_probe(ao)
         self.touch_probe(bo)
         try:
